@@ -177,10 +177,8 @@ Section Parser.
 
   (* &token[k..token.len()-1] (pinned) / token.get(k..token.len()-1) (repaired) *)
   Definition vec_body (tok : str) (k : Z) : res (option str) :=
-    match slice_opt tok k (str_bytes tok - 1) with
-    | Some b => Ok (Some b)
-    | None => if pinned then Panic else Ok None
-    end.
+    if pinned then let! b := slice_bytes tok k (str_bytes tok - 1) in Ok (Some b)
+    else Ok (slice_opt tok k (str_bytes tok - 1)).
   (* depth -= 1 (pinned) / depth = depth.saturating_sub(1) (repaired) *)
   Definition close_depth (d : Z) : res Z :=
     if pinned then usub p d 1 else Ok (if d =? 0 then 0 else d - 1).
